@@ -14,6 +14,7 @@ def run(ctx):
     s = ctx['seed'] + 14
     parts = [
         Part('size_tight', 'corr_meta', 'run_size_tight', [s, 1500 if q else 6000]),
+        Part('filter_wrapper_code', 'corr_filterwrappergen', 'run', [s, 100 if q else 2000], count_exceptions=False),
         Part('filter_pair', 'corr_filters', 'run_pairs', [s, 300 if q else 6000], specs={'fp_common_token_spec'}),
         Part('filter_tables', 'corr_filters', 'run_tables', [s, 100 if q else 2000, ['prefix', 'position', 'overlap']],
              specs={'sound_spec'}),
